@@ -1486,6 +1486,17 @@ def sysabs(hkl, syscond, crystal_system='triclinic', cell_choice='standard'):
                 k = hkl[0]
                 l = hkl[1]
                 sys_type = sysabs_unique([h, k, l], syscond)    
+    elif crystal_system == 'cubic':
+        if sys_type == 0:
+            h = hkl[1]
+            k = hkl[2]
+            l = hkl[0]
+            sys_type = sysabs_unique([h, k, l], syscond)
+            if sys_type == 0:
+                h = hkl[2]
+                k = hkl[0]
+                l = hkl[1]
+                sys_type = sysabs_unique([h, k, l], syscond)
     elif crystal_system == 'trigonal' or crystal_system == 'hexagonal':
         if sys_type == 0:
             h = -(hkl[0]+hkl[1])
